@@ -119,9 +119,68 @@ PRIMITIVES = (
     "reset", "type_", "unlatch", "value_to_raw", "write", "write_raw")
 
 
+def role_names(fn):
+    """Locals of a memory write sequence renamed after the role they play,
+    so that the rules do not depend on what a local is called:
+      for A, B in zip(cls.locations, <raw>)   A -> location, B -> value
+      X compared with A.address               X -> dtr0   (the local copy of
+                                                          the unit's DTR0)
+      U assigned True under a test of
+        NVM_RW_L and used as an `if` test     U -> unlock_required
+    Returns a renamed copy (or fn itself if nothing had to be renamed)."""
+    ren = {}
+    loops = [n for n in ast.walk(fn) if isinstance(n, ast.For) and isinstance(
+        n.iter, ast.Call) and unparse(n.iter.func) == "zip" and len(
+            n.iter.args) == 2 and unparse(n.iter.args[0]) == "cls.locations"
+        and isinstance(n.target, ast.Tuple) and len(n.target.elts) == 2 and
+        all(isinstance(x, ast.Name) for x in n.target.elts)]
+    if len(loops) == 1:
+        a, b = loops[0].target.elts
+        ren[a.id] = "location"
+        ren[b.id] = "value"
+        for n in ast.walk(loops[0]):
+            if isinstance(n, ast.Compare) and len(n.ops) == 1 and isinstance(
+                    n.ops[0], (ast.Eq, ast.NotEq)):
+                l, r = n.left, n.comparators[0]
+                for (x, y) in ((l, r), (r, l)):
+                    if unparse(x) == a.id + ".address" and isinstance(
+                            y, ast.Name):
+                        ren[y.id] = "dtr0"
+    flags = set()
+    for n in ast.walk(fn):
+        if isinstance(n, ast.If) and "NVM_RW_L" in unparse(n.test, 400):
+            for st in n.body:
+                if isinstance(st, ast.Assign) and len(
+                        st.targets) == 1 and isinstance(
+                            st.targets[0], ast.Name) and isinstance(
+                                st.value, ast.Constant) and \
+                        st.value.value is True:
+                    flags.add(st.targets[0].id)
+    tested = {n.test.id for n in ast.walk(fn) if isinstance(n, ast.If) and
+              isinstance(n.test, ast.Name)}
+    flags &= tested
+    if len(flags) == 1:
+        ren[flags.pop()] = "unlock_required"
+    ren = {k: v for k, v in ren.items() if k != v}
+    if not ren:
+        return fn
+    taken = {n.id for n in ast.walk(fn) if isinstance(n, ast.Name)} | {
+        a.arg for a in fn.args.args + fn.args.kwonlyargs}
+    if any(v in taken and v not in ren for v in ren.values()) or len(
+            set(ren.values())) != len(ren):
+        return fn          # the canonical name is used for something else
+    from .inline import acopy
+    fn = acopy(fn)
+    for n in ast.walk(fn):
+        if isinstance(n, ast.Name) and n.id in ren:
+            n.id = ren[n.id]
+    return fn
+
+
 def method_cfg(world, cls_qname, name):
     r = world.method(cls_qname, name)
-    fn = normalise(r[2], world, LOC, world.cls(cls_qname),
+    fn = role_names(r[2])
+    fn = normalise(fn, world, LOC, world.cls(cls_qname),
                    primitives=PRIMITIVES)
     q = "%s.%s" % (cls_qname, name)
     cfg = gen_cfg(fn, q)
